@@ -354,6 +354,32 @@ def run_check(pid, tier, replay=None):
         log("proof obligations NOT discharged:", where)
     else:
         log("proof obligations discharged: %d theorems in %s" % (len(thms), props_rel))
+    # ---- independent re-check of the compiled files (thorough tier): coqchk -o
+    if proof_ok and tier == "thorough" and not replay and not os.environ.get("VERIF_SKIP_COQCHK"):
+        lib = "EV." + props_rel[:-2].replace("/", ".")
+        rc_chk, out_chk = sh(["timeout", "1700", "coqchk", "-silent", "-o", "-R", ".", "EV", lib], cwd=COQ, timeout=1750)
+        summ = out_chk[out_chk.find("CONTEXT SUMMARY"):] if "CONTEXT SUMMARY" in out_chk else out_chk[-1500:]
+        cov["coqchk"] = {"exit": rc_chk, "summary": summ[-1800:]}
+        bad_chk = []
+        if rc_chk != 0:
+            bad_chk.append("coqchk exit %d" % rc_chk)
+        for key in ("type-in-type", "unsafe (co)fixpoints", "positivity is assumed"):
+            m = re.search(re.escape(key) + r":\s*(.*)", summ)
+            if m and "<none>" not in m.group(1):
+                bad_chk.append("%s: %s" % (key, m.group(1)))
+        m = re.search(r"\* Axioms:(.*?)\n\s*\n\* Constants", summ, flags=re.S)
+        if m and "<none>" not in m.group(1):
+            names = re.findall(r"([A-Za-z_][\w.']*)", m.group(1))
+            short = {a.split(".")[-1] for a in ALLOWED_AXIOMS}
+            extra_chk = [nm for nm in names if nm.split(".")[-1] not in short and "." in nm]
+            cov["coqchk"]["axioms"] = names
+            if extra_chk:
+                bad_chk.append("axioms outside the whitelist: %s" % extra_chk)
+        trusted.append("coqchk -o over %s: %s" % (lib, "ok" if not bad_chk else "; ".join(bad_chk)))
+        if bad_chk:
+            proof_ok = False
+            violations.append({"kind": "proof-broken", "key": "coqchk", "detail": "; ".join(bad_chk) + "\n" + summ[-1500:],
+                               "case": None, "names": "coqchk -o over %s" % lib})
     cov["checker_cmd"] = "cd /verif/coq && make %so && coqc -q -R . EV %s  (full .vo build; Print Assumptions parsed)" % (props_rel, props_rel)
     cov["trusted_base"] = trusted
     cov["theorems"] = thms
